@@ -4,7 +4,7 @@
 // produced by gen.py, plus all tiny files.  Every input is parsed in a forked child (ASan build; this source is built
 // twice: -DNDEBUG and with assertions) through
 //   P   the format's Parser driven synchronously on a pre-filled input queue (read_meta::yes, buffers_type::any)
-//   P2  the same with read_meta::no and buffers_type::single
+//   P2  the same with read_meta::no, buffers_type::single and the input cut into 61-byte pieces
 //   RB  the full osmium::io::Reader on a memory buffer          (E1, E5, E7..E9 and all gz/bz2 seeds)
 //   RF  the full osmium::io::Reader on a file (memfd)           (ditto)
 // ORACLE: the parse must terminate and either deliver buffers or throw something derived from std::exception; every
@@ -131,6 +131,7 @@ struct Case {
     std::string input;
     std::string cls;            // "<edit class>[-mode]/<field label>"
     std::string desc;           // human readable
+    std::string gen;            // for inputs too long for a replay spec: "<seed>:<mode>:<a>:<b>:<fill length>" (regenerated from the seed)
     unsigned drivers = D_P;
     bool differs = true;
 };
@@ -183,7 +184,9 @@ static void build_blocks(const std::string& part) {
         } else if (part == "E3") {
             for (Mode m : modes_of(s)) { add_block(K_DEL, si, m, 0, n); add_block(K_INS, si, m, 0, (n + 1) * 14); }
         } else if (part == "E4") {
-            if (!compressed(s)) add_block(K_PAIR, si, RAW, 0, n * 15 * 289);
+            static const char* e4[] = {"pbf-dense", "pbf-way", "pbf-rel", "pbf-unknown", "pbf-sparse", "o5m-noinfo", "xml-ent", "xml-cs2", "xml-way",
+                                       "opl-min", "opl-tabs", "opl-rel", "opl-esc"};       // the pair neighbourhood is 4335 x the seed length
+            if (std::find(e4, e4 + sizeof(e4) / sizeof(e4[0]), s.name) != e4 + sizeof(e4) / sizeof(e4[0])) add_block(K_PAIR, si, RAW, 0, n * 15 * 289);
         } else if (part == "E5") {
             for (int fi = 0; fi < static_cast<int>(s.flds.size()); ++fi) { add_block(K_LEN, si, RAW, fi, NLV); if (s.structured()) add_block(K_LEN, si, NESTED, fi, NLV); }
         } else if (part == "E7") {
@@ -196,7 +199,7 @@ static void build_blocks(const std::string& part) {
         for (unsigned len = 0; len <= 3; ++len) for (int pi = 0; pi < static_cast<int>(PREFIXES.size()); ++pi) {
             const Prefix& p = PREFIXES[pi];
             unsigned maxlen = 2;
-            if (THOROUGH && (p.name == "whole" || p.name == "after-magic" || p.name == "node-body" || p.name == "node-fields" || p.name == "data-blob")) maxlen = 3;
+            if (THOROUGH && (p.name == "node-body" || p.name == "node-fields" || p.name == "data-blob")) maxlen = 3;
             if (len == 0 && p.name != "whole") continue;
             if (!ONLY.empty() && (p.fmt + "-" + p.name).find(ONLY) == std::string::npos) continue;
             if (len <= maxlen) add_block(K_TINY, pi, RAW, static_cast<int>(len), benum::ipow(256, len));
@@ -252,6 +255,10 @@ static Case make_case(uint64_t rank) {
             int v = THOROUGH ? (slot == o ? -1 : static_cast<int>(slot)) : interesting_value(o, slot);
             if (v < 0) { c.skip = true; return c; }
             c.input = s.data; c.input[p] = static_cast<char>(v); ecl = "E2"; label = lab_at(p);
+            if (THOROUGH && compressed(s)) {      // the Reader drivers (threads) only for the interesting values, the rest through P (same decompressor code)
+                bool interesting = false; for (unsigned sl = 0; sl < 17; ++sl) if (interesting_value(o, sl) == v) interesting = true;
+                if (!interesting) c.drivers = D_P;
+            }
             snprintf(buf, sizeof buf, "byte %zu: %02x -> %02x", p, o, v); break; }
         case K_DEL: {
             const size_t p = k;
@@ -278,7 +285,8 @@ static Case make_case(uint64_t rank) {
             snprintf(buf, sizeof buf, "%s field %s at %zu: %llu -> %llu", f.kind == 'i' ? "index" : "length", f.label.c_str(), f.off, static_cast<unsigned long long>(f.value), static_cast<unsigned long long>(v)); break; }
         case K_LONG: {
             const Range& r = s.strs[B.idx]; const size_t L = LONGLEN[k];
-            c.input = apply_edit(s, r.a, r.b, std::string(L, 'A'), B.mode, &ff, &fo); ecl = std::string("E7-") + MODE_NAME[B.mode]; label = r.label + "#" + std::to_string(L);
+            c.input = apply_edit(s, r.a, r.b, std::string(L, 'A'), B.mode, &ff, &fo); ecl = std::string("E7-") + MODE_NAME[B.mode];
+            c.gen = s.name + ":" + std::to_string(B.mode) + ":" + std::to_string(r.a) + ":" + std::to_string(r.b) + ":" + std::to_string(L); label = r.label + "#" + std::to_string(L);
             snprintf(buf, sizeof buf, "string at [%zu,%zu) (%s) replaced by %zu x 'A'", r.a, r.b, r.label.c_str(), L); break; }
         case K_UDEL: case K_UDUP: {
             const Range& r = s.units[B.idx];
@@ -305,10 +313,11 @@ static bool xfail(const char* what, const std::string& detail) { if (!g_fail) { 
 static size_t padded(size_t n) { return osmium::memory::padded_length(n); }
 static std::string at(const char* t, uc* base, uc* p) { return std::string(t) + " at offset " + std::to_string(p - base) + " of its parent"; }
 
-// a string of `size` bytes (including the terminator) at p must lie in [b,e) and end in NUL
-static bool chk_str(uc* b, uc* e, uc* p, size_t size, const char* out_what, const char* term_what) {
-    if (size < 1 || p < b || p > e || size > static_cast<size_t>(e - p)) return xfail(out_what, "string of recorded size " + std::to_string(size) + at("", b, p) + ", owner has " + std::to_string(e - b) + " bytes");
-    if (p[size - 1] != 0) return xfail(term_what, "string of recorded size " + std::to_string(size) + " is not NUL-terminated inside its owner");
+// a string of `size` bytes (including the terminator) at p must lie in [b,e) and end in NUL; `name` = the accessor that returns it
+static bool chk_str(uc* b, uc* e, uc* p, size_t size, const std::string& name) {
+    if (size < 1) return xfail((name + "-has-size-0").c_str(), "recorded string size 0 (no terminator belongs to the string)" + at("", b, p) + ": the accessor returns a pointer to whatever follows");
+    if (p < b || p > e || size > static_cast<size_t>(e - p)) return xfail((name + "-outside-owner").c_str(), "string of recorded size " + std::to_string(size) + at("", b, p) + ", owner has " + std::to_string(e - b) + " bytes");
+    if (p[size - 1] != 0) return xfail((name + "-unterminated").c_str(), "string of recorded size " + std::to_string(size) + " is not NUL-terminated inside its owner");
     g_sink += strlen(reinterpret_cast<const char*>(p));
     return true;
 }
@@ -337,7 +346,7 @@ static bool walk_members(uc* b, uc* e, int depth) {
     while (p < e) {
         if (static_cast<size_t>(e - p) < sizeof(osmium::RelationMember)) return xfail("RelationMember-outside-list", at("member", b, p));
         const auto* m = reinterpret_cast<const osmium::RelationMember*>(p);
-        if (!chk_str(p, e, p + sizeof(osmium::RelationMember), m->m_role_size, "RelationMember::role-outside-list", "RelationMember::role-unterminated")) return false;
+        if (!chk_str(p, e, p + sizeof(osmium::RelationMember), m->m_role_size, "RelationMember::role")) return false;
         uc* nx = p + padded(sizeof(osmium::RelationMember) + m->m_role_size);
         if (nx > e) return xfail("RelationMember-padding-outside-list", at("member", b, p));
         if (m->full_member()) {
@@ -355,8 +364,8 @@ static bool walk_discussion(uc* b, uc* e) {
         if (static_cast<size_t>(e - p) < sizeof(osmium::ChangesetComment)) return xfail("ChangesetComment-outside-discussion", at("comment", b, p));
         const auto* c = reinterpret_cast<const osmium::ChangesetComment*>(p);
         uc* user = p + sizeof(osmium::ChangesetComment);
-        if (!chk_str(p, e, user, c->m_user_size, "ChangesetComment::user-outside-discussion", "ChangesetComment::user-unterminated")) return false;
-        if (!chk_str(p, e, user + c->m_user_size, c->m_text_size, "ChangesetComment::text-outside-comment", "ChangesetComment::text-unterminated")) return false;
+        if (!chk_str(p, e, user, c->m_user_size, "ChangesetComment::user")) return false;
+        if (!chk_str(p, e, user + c->m_user_size, c->m_text_size, "ChangesetComment::text")) return false;
         uc* nx = p + padded(sizeof(osmium::ChangesetComment) + c->m_user_size + c->m_text_size);
         if (nx > e) return xfail("ChangesetComment-padding-outside-discussion", at("comment", b, p));
         p = nx;
@@ -421,7 +430,7 @@ static bool walk_item(uc* p, uc* limit, int depth) {
             const auto& o = *reinterpret_cast<const osmium::OSMObject*>(p);
             const size_t so = o.sizeof_object();
             if (sz < so) return xfail("OSMObject-smaller-than-its-header", std::to_string(sz));
-            if (!chk_str(p, e, p + so, o.user_size(), "OSMObject::user-outside-object", "OSMObject::user-unterminated")) return false;
+            if (!chk_str(p, e, p + so, o.user_size(), "OSMObject::user")) return false;
             uc* sub = p + padded(so + o.user_size());
             if (sub > e) return xfail("OSMObject::subitems-outside-object", "");
             if (!walk_subitems(p, sub, e, depth)) return false;
@@ -429,7 +438,7 @@ static bool walk_item(uc* p, uc* limit, int depth) {
         case osmium::item_type::changeset: {
             const auto& c = *reinterpret_cast<const osmium::Changeset*>(p);
             if (sz < sizeof(osmium::Changeset)) return xfail("Changeset-smaller-than-its-header", std::to_string(sz));
-            if (!chk_str(p, e, p + sizeof(osmium::Changeset), c.m_user_size, "Changeset::user-outside-changeset", "Changeset::user-unterminated")) return false;
+            if (!chk_str(p, e, p + sizeof(osmium::Changeset), c.m_user_size, "Changeset::user")) return false;
             uc* sub = p + padded(sizeof(osmium::Changeset) + c.m_user_size);
             if (sub > e) return xfail("Changeset::subitems-outside-changeset", "");
             if (!walk_subitems(p, sub, e, depth)) return false;
@@ -462,12 +471,15 @@ static void guarded(Outcome& o, F f) {       // classify what escapes
 }
 static osmium::thread::Pool& my_pool() { static osmium::thread::Pool pool{1}; return pool; }
 
+static int pool_env = -1;      // what OSMIUM_USE_POOL_THREADS_FOR_PBF_PARSING currently says (-1 unknown, 0 false, 1 unset)
 static Outcome drive_parser(const std::string& fmt, const std::string& input, bool variant2) {
     using namespace osmium::io;
     using namespace osmium::io::detail;
     Outcome o;
     g_fail = false; g_objects = 0;
-    const File file{std::string{}, fmt};
+    static std::map<std::string, File> files;          // parsing the format string once per format, not once per case
+    auto fit = files.find(fmt); if (fit == files.end()) fit = files.emplace(fmt, File{std::string{}, fmt}).first;
+    const File& file = fit->second;
     std::vector<std::string> chunks; std::exception_ptr in_exc;
     if (file.compression() != file_compression::none) {        // what the Reader's read thread does
         try {
@@ -475,8 +487,9 @@ static Outcome drive_parser(const std::string& fmt, const std::string& input, bo
             for (;;) { std::string s = d->read(); if (s.empty()) break; chunks.push_back(std::move(s)); }
             d->close();
         } catch (...) { in_exc = std::current_exception(); }
-    } else if (!input.empty()) chunks.push_back(input);
-    setenv("OSMIUM_USE_POOL_THREADS_FOR_PBF_PARSING", "false", 1);     // decode blobs inline: no threads in this driver
+    } else if (!variant2) { if (!input.empty()) chunks.push_back(input); }
+    else for (size_t p = 0; p < input.size(); p += 61) chunks.push_back(input.substr(p, 61));      // variant 2: input arrives in 61-byte pieces
+    if (pool_env != 0) { setenv("OSMIUM_USE_POOL_THREADS_FOR_PBF_PARSING", "false", 1); pool_env = 0; }     // decode blobs inline: no threads in this driver
     future_string_queue_type inq{0, "in"};
     future_buffer_queue_type outq{0, "out"};
     std::promise<Header> hp; std::future<Header> hf = hp.get_future();
@@ -503,8 +516,9 @@ static Outcome drive_parser(const std::string& fmt, const std::string& input, bo
 
 static Outcome drive_reader(const std::string& fmt, const std::string& input, bool from_file) {
     Outcome o;
+    pool_env = 1;
     g_fail = false; g_objects = 0;
-    unsetenv("OSMIUM_USE_POOL_THREADS_FOR_PBF_PARSING");
+    unsetenv("OSMIUM_USE_POOL_THREADS_FOR_PBF_PARSING");       // the Reader runs as shipped: blobs are decoded in the pool
     int mfd = -1; char path[64] = "";
     if (from_file) {
         mfd = static_cast<int>(syscall(SYS_memfd_create, "c03", 0u));
@@ -579,11 +593,34 @@ static std::string classify_death(const std::string& what, const std::string& er
     if (dc == "terminate") { size_t p = err.find("instance of '"); if (p != std::string::npos) { size_t e = err.find('\'', p + 13); return keyify("terminate/" + err.substr(p + 13, e - p - 13)); } }
     return keyify(dc);
 }
-static std::string make_key(const std::string& what, const Case& c, int driver) {
-    return keyify(what + "/" + c.fmt + "/" + c.cls + ((driver == D_RB || driver == D_RF) ? std::string("/") + driver_name(driver) : ""));
+// Class key: <what went wrong>/<format>/<edit class>[/<field>].  'what' of an assertion, an extent violation or a sanitizer report
+// with a libosmium frame already names the library function and the broken invariant, so the field (element / message field /
+// dataset field of the edited position, without sub-position) is only added for the kinds that do not (signals, hangs, ...).
+static std::string coarse_label(const std::string& l) {
+    std::string r;
+    for (const std::string& part0 : std::vector<std::string>{l.substr(0, l.find('+')), l.find('+') == std::string::npos ? std::string() : l.substr(l.find('+') + 1)}) {
+        if (part0.empty()) continue;
+        std::string part = part0;
+        size_t gt = part.rfind('>'); if (gt != std::string::npos) part = part.substr(gt + 1);
+        part = part.substr(0, part.find_first_of(":#@/"));
+        if (r.empty()) r = part; else if (r != part) r += "+" + part;
+    }
+    return r;
 }
-static std::string make_spec(const Case& c) { return c.fmt + "|" + std::to_string(c.drivers) + "|" + c.cls + "|" + benum::hex(c.input); }
+static std::string make_key(const std::string& what, const Case& c, int driver) {
+    std::string ecl = c.cls.substr(0, c.cls.find('/'));
+    ecl = ecl.substr(0, ecl.find('-'));
+    const bool names_function = what.compare(0, 7, "assert/") == 0 || what.compare(0, 7, "extent/") == 0 ||
+                                (what.compare(0, 5, "asan/") == 0 && what.find("@osmium::") != std::string::npos);
+    std::string key = what + "/" + c.fmt + "/" + ecl;
+    if (!names_function) key += "/" + coarse_label(c.cls.substr(c.cls.find('/') + 1));
+    if (driver == D_RB || driver == D_RF) key += std::string("/") + driver_name(driver);
+    return keyify(key);
+}
 static const size_t MAX_SPEC_INPUT = 1900;     // the protocol caps a spec at 4000 characters
+static std::string make_spec(const Case& c) {
+    return c.fmt + "|" + std::to_string(c.drivers) + "|" + c.cls + "|" + (c.input.size() <= MAX_SPEC_INPUT ? benum::hex(c.input) : "gen:" + c.gen);
+}
 
 // Run all drivers of one case; returns the first failure. Called inside a forked child only.
 static Outcome run_case_body(const Case& c, std::string* outcome_text) {
@@ -592,7 +629,10 @@ static Outcome run_case_body(const Case& c, std::string* outcome_text) {
     for (int d : order) {
         if (!(c.drivers & d)) continue;
         S->cur_driver = d;
+        auto t0 = std::chrono::steady_clock::now();
         Outcome o = (d == D_P || d == D_P2) ? drive_parser(c.fmt, c.input, d == D_P2) : drive_reader(c.fmt, c.input, d == D_RF);
+        C[d == D_P ? "us_parser" : d == D_P2 ? "us_parser2" : d == D_RB ? "us_reader_buffer" : "us_reader_file"] += static_cast<uint64_t>(std::chrono::duration<double, std::micro>(std::chrono::steady_clock::now() - t0).count());
+        ++C[d == D_P ? "runs_parser" : d == D_P2 ? "runs_parser2" : d == D_RB ? "runs_reader_buffer" : "runs_reader_file"];
         if (d == D_P) { last = o; if (outcome_text) *outcome_text = c.fmt + ":" + (o.threw ? o.extype : std::string("ok")) + (o.objects ? "+objects" : ""); }
         if (o.fail) return o;
     }
@@ -649,7 +689,7 @@ static void emit_violation(const Case& c, const Alone& r) {
 #endif
             + "] " + c.desc + " (" + std::to_string(c.input.size()) + " bytes as " + c.fmt + "): " + r.detail;
         if (c.input.size() <= 160) detail += " | input=" + benum::hex(c.input);
-        benum::viol(key, detail, c.input.size() <= MAX_SPEC_INPUT ? make_spec(c) : std::string());
+        benum::viol(key, detail, (c.input.size() <= MAX_SPEC_INPUT || !c.gen.empty()) ? make_spec(c) : std::string());
     }
 }
 
@@ -710,10 +750,20 @@ int main(int argc, char** argv) {
     S = static_cast<Shared*>(mmap(nullptr, sizeof(Shared), PROT_READ | PROT_WRITE, MAP_SHARED | MAP_ANONYMOUS, -1, 0));
     memset(S, 0, sizeof(Shared));
     THOROUGH = a.thorough;
+    {   // the Reader drivers create 2-3 threads per case; 8 MiB default stacks cost ASan ~5 ms each to set up and tear down
+        pthread_attr_t at; pthread_attr_init(&at); pthread_attr_setstacksize(&at, 512 * 1024); pthread_setattr_default_np(&at); pthread_attr_destroy(&at);
+    }
     if (a.replay) {
         std::vector<std::string> f = split(a.replay_spec, '|');
         if (f.size() != 4) { fprintf(stderr, "bad spec\n"); return 3; }
-        Case c; c.fmt = f[0]; c.drivers = static_cast<unsigned>(atoi(f[1].c_str())); c.cls = f[2]; c.input = benum::unhex(f[3]); c.desc = "replay";
+        Case c; c.fmt = f[0]; c.drivers = static_cast<unsigned>(atoi(f[1].c_str())); c.cls = f[2]; c.desc = "replay";
+        if (f[3].compare(0, 4, "gen:") == 0) {          // long input: regenerate it from the seed file
+            std::vector<std::string> g = split(f[3].substr(4), ':');
+            load_data(C03_DATA);
+            for (const Seed& sd : SEEDS) if (g.size() == 5 && sd.name == g[0])
+                c.input = apply_edit(sd, strtoull(g[2].c_str(), nullptr, 10), strtoull(g[3].c_str(), nullptr, 10), std::string(strtoull(g[4].c_str(), nullptr, 10), 'A'), static_cast<Mode>(atoi(g[1].c_str())));
+            c.gen = f[3].substr(4); c.desc = "replay of " + c.gen;
+        } else c.input = benum::unhex(f[3]);
         Alone r = run_alone(c, CASE_TIMEOUT * 10);
         if (r.failed) emit_violation(c, r); else benum::note("replay: case passes");
         return 0;
@@ -734,9 +784,9 @@ int main(int argc, char** argv) {
         {"E1", "E1 every truncation length of every seed (raw file; content of every framing/nested length field with lengths recomputed)"},
         {"E2", a.thorough ? "E2 every single-byte substitution, position x all 255 other values" : "E2 every single-byte substitution, position x 17 interesting values"},
         {"E3", "E3 every single-byte deletion and every insertion of 14 interesting bytes at every position (raw / framed / nested lengths recomputed)"},
-        {"E4", "E4 every pair of interesting substitutions within a 16-byte window"},
+        {"E4", "E4 every pair of interesting substitutions within a 16-byte window (13 seeds)"},
         {"E5", "E5 every length field and string-table index x 14 boundary values (raw / enclosing lengths recomputed)"},
-        {"E6", a.thorough ? "E6 every byte string of length <= 2 after every prefix, <= 3 as whole file of each format and after 4 prefixes" : "E6 every byte string of length <= 2 as whole file of each format and after every prefix"},
+        {"E6", a.thorough ? "E6 every byte string of length <= 2 as whole file of each format and after every prefix, <= 3 after 3 prefixes (o5m node dataset, OPL 'n1 ', PBF data blob payload)" : "E6 every byte string of length <= 2 as whole file of each format and after every prefix"},
         {"E7", "E7 every string slot x lengths {1024,1025,65534,65535,65536,65537}"},
         {"E8", "E8/E9 every structural unit (element, attribute, protobuf field, blob, dataset, line, OPL field) deleted / duplicated"}};
     benum::bound(what.at(part) + " [" + bm + " build, " + std::to_string(TOTAL) + " ranks]", complete);
